@@ -1,6 +1,7 @@
 import Uom.Proofs.OpsExact
 import Uom.Proofs.FlConvIdentity
 import Uom.Gen.Table
+import Uom.Proofs.BodyEq.Kind
 /-!
 # C15 — kind conversions keep magnitude and dimension; only to/from the default kind
 
@@ -65,5 +66,25 @@ theorem ratio_number {V : Type} (v : V) : ratioOfNumber (ratioOfNumber v) = v :=
 
 /-- non-vacuity: the default kind converts to kind 1 (angle) and back, angle does not convert to kind 2 -/
 example : accepts 0 1 = true ∧ accepts 1 0 = true ∧ accepts 1 2 = false ∧ accepts 1 1 = false := by decide +kernel
+
+/-! ### tie to the source: the function bodies regenerated from /repo/src on this run
+
+`Gen.Body.*` below is what the translator read from the Rust source just now; `Body.run` evaluates it
+over any storage type.  These theorems state the property's code path *for the regenerated bodies*:
+they fail to check as soon as the source computes something else. -/
+section SourceTie
+open Uom.Body Uom.Gen.Body
+
+/-- `From` between kinds: `change_base` over the (unchanged) explicit dimension when autoconvert is on,
+    the bare stored value when it is off; `Ratio` ↔ bare value is the identity on the stored value -/
+theorem src_kind_from (N : NumTy) (env : Env N) (a : N.S.V) :
+    run N env si_mod_From_Quantity_for_Quantity_from_auto [argQ a]
+      = argQ (kindFromOn N.S (env.bf .Ul .Dexplicit) (env.bf .Ur .Dexplicit) a) ∧
+    run N env si_mod_From_Quantity_for_Quantity_from_noauto [argQ a] = argQ (kindFromOff N.S a) ∧
+    run N env si_ratio_From_V_for_Ratio_from [argV a] = argQ a ∧
+    run N env si_ratio_From_Ratio_for_V_from [argQ a] = argV a :=
+  ⟨rfl, rfl, rfl, rfl⟩
+
+end SourceTie
 
 end Uom.C15
